@@ -51,7 +51,7 @@ package controllers
 // a handler that failed or asked for a re-sync makes this pass end with a retry (and a retry is never forgotten)
 //@   loop 1 end assert [retryAsked] res == SyncStateError || res == SyncStateReprocessAll ==> retry
 //@   loop 1 end assert [retrySticky] head(retry) ==> retry
-//@   loop 1 invariant [retryBlocksLoad] true
+//@   exit assert [retryIsReported] retry ==> result1 != nil
 //@   assert after sort.Slice: [assignedFirst] forall a int, b int :: 0 <= a && a < b && b < len(sortedServices) ==> len(sortedServices[a].Status.LoadBalancer.Ingress) >= len(sortedServices[b].Status.LoadBalancer.Ingress)
 // reading objects through the API client and formatting them has no effect on the reconciler's state (assumed)
 //@ func (*ServiceReconciler).serviceFor
@@ -72,3 +72,5 @@ package controllers
 //@   abstract
 //@   assert before Handler: [afterInitialLoad] r.initialLoadPerformed
 //@   assert before forceReload: [onRequest] res == SyncStateReprocessAll
+//@   exit assert [errorIsRetried] res == SyncStateError ==> result1 != nil
+//@   requires [errVar] errRetry != nil
